@@ -220,9 +220,10 @@ func (u *Unit) newFrame(fn *types.Func, sig *types.Signature, body *ast.BlockStm
 }
 
 // RunFunc verifies a function under contract.
-func (e *Engine) RunFunc(fn *types.Func, fc *FuncContract) *Unit {
+func (e *Engine) RunFunc(fn *types.Func, fc *FuncContract) (ru *Unit) {
 	fi := e.funcs[fn]
 	u := newUnit(e, funcKey(fn), fi.pkg)
+	ru = u
 	u.fn = fn
 	u.fc = fc
 	u.spec = fc.Spec
